@@ -333,7 +333,7 @@ def random_expr(rng, surf_ids, depth, macro_ids=()):
 
 
 SURF_POOL = [
-    ('px', [0.0]), ('px', [1.5]), ('py', [-0.5]), ('py', [1.0]), ('pz', [0.25]), ('pz', [-1.25]),
+    ('px', [0.0]), ('px', [1.5]), ('px', [1.0]), ('px', [-1.0]), ('py', [-0.5]), ('py', [1.0]), ('pz', [0.25]), ('pz', [-1.25]),
     ('so', [2.0]), ('s', [0.5, 0.5, 0.0, 1.25]), ('cz', [1.0]), ('c/z', [0.5, -0.5, 0.75]), ('cx', [1.5]),
     ('p', [1.0, 1.0, 0.0, 0.5]), ('p', [1.0, -1.0, 1.0, -0.25]), ('kz', [0.5, 1.0, 1.0]), ('k/x', [-0.5, 0.0, 0.0, 0.5]),
     ('sq', [1.0, 2.0, 1.0, 0.0, 0.0, 0.0, -2.0, 0.25, 0.0, 0.0]), ('gq', [1.0, 1.0, 0.0, 0.0, 0.0, 0.0, 0.0, 0.0, -1.0, -0.5]),
@@ -370,6 +370,12 @@ def level0_deck(seed, n_cells=4, n_surfs=5, with_tr=True, with_macro=True, with_
         if with_bc and rng.random() < 0.15 and mn not in ('kz', 'k/x'):
             bc = rng.choice(['*', '+'])
         d.add_surf(Surf(sid, mn, params, tr, bc))
+    if with_bc and rng.random() < 0.25:
+        # a second, flagged card for a surface that is already there (what de-duplication merges)
+        src = rng.choice(list(d.surfs.values()))
+        if src.mn not in ('kz', 'k/x') and not src.bc:
+            sid += 1
+            d.add_surf(Surf(sid, src.mn, list(src.params), src.tr, rng.choice(['*', '+'])))
     macro = []
     if with_macro and rng.random() < 0.5:
         sid += 2
@@ -481,7 +487,7 @@ def fill_deck(seed):
     (number, inline, starred), TRCL on containers."""
     rng = random.Random(f'fill{seed}')
     d = Deck(f'fill deck seed {seed}')
-    pool = rng.sample(SURF_POOL[:13], 6)
+    pool = rng.sample(SURF_POOL[:15], 6)
     for i, (mn, params) in enumerate(pool, start=1):
         d.add_surf(Surf(i, mn, params))
     for k in (1, 2):
